@@ -12,6 +12,7 @@ namespace AIToolbox::Factored::MDP {
             agentNormRews_(graph_.getA().size())
     {
         // We also pre-compute the perAgentRews_ here, since they do not depend on random subsets of rules.
+        agentNormRews_.setZero();
         for (const auto & q : q_.bases)
             for (auto a : q.actionTag)
                 ++agentNormRews_[a];
